@@ -172,6 +172,9 @@ fn main() {
                                 if margin < 1e-9 {
                                     verdict = "inconclusive";
                                     what = "outputs differ but a trace passed within 1e-9 of a regret-matching discontinuity".into();
+                                } else if diff.is_some() && solve::smooth_divergence(&o, &b, prep.flat.max_abs_payoff(), 100.0).is_some() {
+                                    verdict = "inconclusive";
+                                    what = "outputs differ but the difference grows smoothly out of rounding noise over the snapshots".into();
                                 } else if let Some(d) = diff {
                                     verdict = "violation";
                                     sig = format!("{}:miri:differs-from-single-thread:{}", prop, gen::method_name(method));
